@@ -291,6 +291,8 @@ class Ctx:
             return (pneg(a[0]), a[1])
         if op in ('fpext', 'fptrunc', 'sitofp', 'sext'):
             return self.rat(n.args[0])
+        if op == 'trunc' and getattr(self, 'int_exact', False):
+            return self.rat(n.args[0])        # stated assumption of the caller: the integer fits the narrower type
         if op == 'call':
             return self.call(n)
         if op == 'absi':
